@@ -267,6 +267,11 @@ bool aiounicast_nonblock::Send
 	if (!fd_out.count(i_in))
 		return false;
 	// prepare write buffer from the message m
+	if (aio_is_encrypted && (mpz_sgn(m) < 0))
+	{
+		std::cerr << "aiounicast_nonblock: cannot hide a negative integer" << std::endl;
+		return false; // the length hiding offset is defined for m >= 0 only
+	}
 	mpz_t tmp;
 	mpz_init_set(tmp, m);
 	if (aio_is_encrypted)
